@@ -759,6 +759,27 @@ func e2eStream(o *Out, rng *rand.Rand, n int) {
 				bad := []string{"/announce?info_hash=%zz", "/announce", "/announce?info_hash=short&peer_id=x", "/announce?port=1", "/scrape", "/announce?info_hash=" + url.QueryEscape(string(ih)) + "&peer_id=" + url.QueryEscape(string(p.id)) + "&port=0&left=1&downloaded=0&uploaded=0",
 					"/announce?info_hash=" + url.QueryEscape(string(ih)) + "&peer_id=%ff%fe&port=1&left=1&downloaded=0&uploaded=0", "/announce?%ff=%fe&info_hash=" + url.QueryEscape(string(ih))}
 				u := bad[rng.Intn(len(bad))]
+				if rng.Intn(2) == 0 {
+					// an otherwise well-formed announce with ONE hostile value (bytes that are not UTF-8, NUL, line breaks, a long
+					// value, an unknown word) for one of the parameters the tracker reads - or under a hostile key
+					hostile := []string{"%ff", "%c3", "%80%80", "%00", "a%0d%0ab", "paused%ff", "%e2%28%a1", strings.Repeat("%fe", 40), "-1", "1e3", "started%00", "%f0%9f%92%a9"}[rng.Intn(12)]
+					kv := map[string]string{"info_hash": url.QueryEscape(string(ih)), "peer_id": url.QueryEscape(string(p.id)), "port": fmt.Sprint(p.port), "left": fmt.Sprint(left),
+						"downloaded": "0", "uploaded": "0", "event": "started", "compact": "1", "numwant": fmt.Sprint(nw)}
+					keys := []string{"info_hash", "peer_id", "port", "left", "downloaded", "uploaded", "event", "compact", "numwant"}
+					victim := []string{"event", "event", "event", "compact", "numwant", "port", "left", "downloaded", "uploaded", "ip", "peer_id", "info_hash", hostile}[rng.Intn(13)]
+					u = "/announce?"
+					for _, k := range keys {
+						v := kv[k]
+						if k == victim {
+							v = hostile
+						}
+						u += k + "=" + v + "&"
+					}
+					if victim == "ip" || victim == hostile {
+						u += victim + "=" + hostile
+					}
+					u = strings.TrimSuffix(u, "&")
+				}
 				t := "hann"
 				if strings.HasPrefix(u, "/scrape") {
 					t = "hscr"
